@@ -246,6 +246,22 @@ def grid_case(case, res):
                             T(o2.start_time) != T(out.start_time):
                         res.violation("dedisperse|supplied chirp differs", f"supplied chirp gives a different result [{sub2}]",
                                       case, sub2)
+                    # the documentation calls the chirp "array-like": the same values as nested lists / a read-only array
+                    if N <= 8:
+                        ro = np.array(chs)
+                        ro.flags.writeable = False
+                        for form, arg in (("nested list", np.asarray(chs).tolist()), ("read-only array", ro)):
+                            res.transitions += 1
+                            try:
+                                o3 = pb.coherent_dedispersion(z, dm, chirp=arg, **kw)
+                            except Exception as e:
+                                res.violation(f"dedisperse|supplied chirp as {form} raised", f"{type(e).__name__}: {e} [{sub2}]", case, sub2)
+                                continue
+                            y3 = np.asarray(o3.data)
+                            if len(o3) != len(out) or (y.size and float(np.max(np.abs(y3 - y))) > 4 * EPS32):
+                                res.violation(f"dedisperse|supplied chirp as {form} differs", f"chirp given as {form} gives a different "
+                                              f"result [{sub2}]", case, sub2)
+                        res.hits["supplied chirp as nested list / read-only array"] += 1
                     res.outcome((N, keep, start))
     # Dask-backed input: several DMs evaluated in ONE graph must each equal their own NumPy result
     if N >= 8:
@@ -408,7 +424,7 @@ def main(argv=None):
         PID, gen_cases=gen_cases, check_case=check_case, describe=describe,
         required_hits=["buffer overwritten between calls", "chirp checked", "|phi| > 1000 cycles (reduction mod 1 matters)",
                        "block shorter than the sweep (empty result)", "cropped on both ends (reference inside band)",
-                       "reference outside the band", "infinite reference frequency", "DM stored in another unit", "dask-backed siblings", "caller modified an earlier chirp", "band-edge delay a few 1e-7 above a whole sample", "sample_rate assigned between dedispersions", "wave packet moved by its delay", "DM then -DM"],
+                       "reference outside the band", "infinite reference frequency", "DM stored in another unit", "dask-backed siblings", "caller modified an earlier chirp", "band-edge delay a few 1e-7 above a whole sample", "sample_rate assigned between dedispersions", "wave packet moved by its delay", "DM then -DM", "supplied chirp as nested list / read-only array"],
         assumptions=["chirp is single precision by design; budget 8 eps32 + 2 pi |phi| 32 eps64 (1 + f_ref/|f - f_ref|) for the "
                      "float64 cancellation in 1/f_ref - 1/f", "Nyquist-bin frequency convention (+-sr/2) left open for even N",
                      "band-edge delays within 1e-9 of an integer leave the crop open"],
